@@ -5,6 +5,7 @@
 package c02
 
 import (
+	"sync"
 	"context"
 	"encoding/json"
 	"fmt"
@@ -161,11 +162,9 @@ func comparePair(p *pair, env hres.Env) (*cmpResult, error) {
 		os.WriteFile(filepath.Join(dir, p.Module+".tla"), src, 0o644)
 	}
 	os.WriteFile(filepath.Join(dir, "MC.cfg"), []byte(p.Cfg), 0o644)
-	os.Setenv("VERIF_SCRATCH", dir)
 	ctx, cancel := context.WithTimeout(context.Background(), 20*time.Minute)
 	defer cancel()
 	g, out, err := tlabridge.DumpGraph(ctx, dir, root, filepath.Join(dir, "MC.cfg"), 20*time.Minute, "-deadlock", "-workers", "4")
-	os.Setenv("VERIF_SCRATCH", scratch)
 	if err != nil {
 		return nil, fmt.Errorf("TLC: %w\n%s", err, tailStr(out, 2000))
 	}
@@ -308,6 +307,7 @@ func TestCheck(t *testing.T) {
 		var samples []any
 		var notCovered []string
 		allCompared := true
+		var todo []*pair
 		for _, p := range pairs() {
 			if only != "" && p.Name != only {
 				continue
@@ -316,7 +316,31 @@ func TestCheck(t *testing.T) {
 				notCovered = append(notCovered, p.Name+" (thorough tier only)")
 				continue
 			}
-			c, err := comparePair(p, env)
+			todo = append(todo, p)
+		}
+		// pairs are independent: run a few at a time (most of a small pair's cost is JVM start-up)
+		type outcome struct {
+			c   *cmpResult
+			err error
+		}
+		results := make([]outcome, len(todo))
+		sem := make(chan struct{}, 4)
+		var wg sync.WaitGroup
+		penv := env
+		penv.Workers = max(2, env.Workers/3)
+		for i, p := range todo {
+			wg.Add(1)
+			go func() {
+				defer wg.Done()
+				sem <- struct{}{}
+				defer func() { <-sem }()
+				c, err := comparePair(p, penv)
+				results[i] = outcome{c, err}
+			}()
+		}
+		wg.Wait()
+		for i, p := range todo {
+			c, err := results[i].c, results[i].err
 			if nc, ok := err.(errNotCompared); ok {
 				notCovered = append(notCovered, p.Name+" (not compared: "+nc.why+")")
 				allCompared = false
